@@ -90,6 +90,10 @@ def _flatten(l):
             out += [["store", o[1]], ["fetch", o[1]]]
         elif o[0] == "smf":  # store, then the caller modifies the object it passed, then fetch
             out += [["store", o[1]], ["mutate", o[1]], ["fetch", o[1]]]
+        elif o[0] == "ppsp":  # two paths committed and queried together, one of them re-committed, both queried again
+            p, q, ka, kb, kc = o[1], o[2], o[3], o[4], o[5]
+            if p != q:
+                out += [["sync", {p: ka, q: kb}], ["paths", [p, q]], ["sync", {p: kc}], ["paths", [p, q]], ["paths", [q, p]]]
         elif o[0] == "aba":  # a path committed to key A, then B, then A again, then queried
             p, ka, kb = o[1], o[2], o[3]
             out += [["sync", {p: ka}], ["sync", {p: kb}], ["sync", {p: ka}], ["paths", [p]]]
@@ -115,6 +119,7 @@ def ops_strategy():
         st.tuples(st.just("behind"), key),
         st.tuples(st.just("behind"), key),
         st.tuples(st.just("aba"), st.sampled_from(PATHS), key, key),
+        st.tuples(st.just("ppsp"), st.sampled_from(PATHS), st.sampled_from(PATHS), key, key, key),
         st.tuples(st.just("paths"), st.permutations(PATHS).map(lambda l: list(l)[:2])),
         st.tuples(st.just("sync"), st.dictionaries(st.sampled_from(PATHS), key, min_size=1, max_size=2)),
         st.tuples(st.just("paths"), st.lists(st.sampled_from(PATHS), min_size=1, max_size=2)),
